@@ -170,24 +170,32 @@ func (r *Report) OverBudget() bool {
 
 var journalF *os.File
 var journalN int
-var lastProgress atomic.Int64
+var progressN atomic.Int64
 
 // watchdog: a case that makes no progress for a long REAL time has hung (e.g. a
 // goroutine of the node deadlocked on a real mutex, which virtual time cannot
 // see). The worker exits; the driver attributes the hang to the journalled case.
+// journal() may run inside a synctest bubble where time.Now() is virtual, so
+// progress is a counter and only this goroutine (outside any bubble) looks at
+// the real clock.
 func init() {
-	lastProgress.Store(time.Now().UnixNano())
 	limit := 180 * time.Second
 	if v, err := strconv.Atoi(os.Getenv("MC_WATCHDOG_S")); err == nil && v > 0 {
 		limit = time.Duration(v) * time.Second
 	}
 	go func() {
+		last := progressN.Load()
+		since := time.Now()
 		for {
 			time.Sleep(2 * time.Second)
 			if os.Getenv("MC_JOURNAL") == "" {
 				continue
 			}
-			if d := time.Since(time.Unix(0, lastProgress.Load())); d > limit {
+			if n := progressN.Load(); n != last {
+				last, since = n, time.Now()
+				continue
+			}
+			if d := time.Since(since); d > limit {
 				fmt.Fprintf(os.Stderr, "\nWATCHDOG: no progress for %v: the current case hangs\n", d.Round(time.Second))
 				buf := make([]byte, 1<<20)
 				n := runtime.Stack(buf, true)
@@ -204,7 +212,7 @@ var journalMap []byte
 var lastJournal string
 
 func journal(format string, a ...any) {
-	lastProgress.Store(time.Now().UnixNano())
+	progressN.Add(1)
 	if journalMap == nil {
 		p := os.Getenv("MC_JOURNAL")
 		if p == "" {
@@ -243,7 +251,7 @@ func journal(format string, a ...any) {
 
 // journalTick only feeds the watchdog (for hot loops over pure objects whose
 // panics are recovered in place).
-func journalTick() { lastProgress.Store(time.Now().UnixNano()) }
+func journalTick() { progressN.Add(1) }
 
 func loadReplay(v any) bool {
 	p := os.Getenv("MC_REPLAY")
